@@ -34,7 +34,9 @@ type Check struct {
 	// CrashIsViolation: a worker that dies is itself a witness (C04, C14).
 	CrashIsViolation bool
 	Parallel         int
-	WorkerTimeout    func(tier string) time.Duration
+	// Boost multiplies the case counts of a check whose cases are very cheap.
+	Boost         int
+	WorkerTimeout func(tier string) time.Duration
 	// Post lets a check derive verdicts from aggregated counters.
 	Post func(a *Agg)
 }
@@ -128,6 +130,7 @@ func envInt(k string, d int64) int64 {
 func runWorker(c *Check, tier string, seed int64, batch, only int, out string) {
 	b := NewB(c.ID, tier, seed, batch)
 	b.Only = only
+	b.Boost = c.Boost
 	c.Run(b)
 	res := b.Result()
 	data, _ := json.Marshal(res)
